@@ -28,8 +28,9 @@
    * values are trees: pointer-typed fields of the destination alias neither each
      other nor the source (Set of a slice/map shares the backing store in Go; no
      later write goes through it, so the tree view is exact for the observables).
-   * converters are total pure functions `value -> option value` (None = the
-     user's converter returned an error); their Src/Dst are non-interface types. *)
+   * converters are total pure functions `value -> option cvres` (None = the user's
+     converter returned an error; CNil = a converter to an interface type returned the
+     nil interface; CDyn t v = the dynamic value v : t); their Src is a non-interface type. *)
 From Ekit Require Import Common.
 
 (* ---------------------------------------------------------------- types *)
@@ -253,7 +254,15 @@ Definition with_val (v : rv) (x : value) : rv :=
   {| rty := rty v; rval := x; raddr := raddr v; rro := rro v |}.
 
 (* ---------------------------------------------------------------- options (copy.go) *)
-Record conv := { cv_src : ty; cv_dst : ty; cv_fun : value -> option value }.
+(* What a converterWrapper returns besides the error: an `any`.  For a converter whose Dst is a
+   non-interface type it is always `CDyn Dst v`; for an interface Dst (ConvertField[string, any],
+   ConvertField[int, error]) it is the nil interface (`CNil`) or a dynamic value `CDyn t v` of some
+   non-interface type t.  reflect.TypeOf gives nil / t, reflect.ValueOf the zero Value / v. *)
+Inductive cvres := CNil | CDyn (t : ty) (v : value).
+
+(* cv_dst is the declared Dst type parameter (documentation; the code only ever sees the
+   dynamic type of the result) *)
+Record conv := { cv_src : ty; cv_dst : ty; cv_fun : value -> option cvres }.
 
 (* options{ignoreFields *set.MapSet[string]; convertFields map[string]converterWrapper};
    None = nil.  The association list is searched from the front and extended at the
@@ -313,7 +322,7 @@ Definition apply_opt (o : options) (p : opt) : options :=
 Definition apply_opts (o : options) (ps : list opt) : options := fold_left apply_opt ps o.
 
 (* the converterWrapper closure built by ConvertField: `src.(Src)` then Convert *)
-Definition apply_conv (c : conv) (t : ty) (v : value) : cres value :=
+Definition apply_conv (c : conv) (t : ty) (v : value) : cres cvres :=
   if negb (ty_eqb t (cv_src c)) then CErr CConvType
   else match cv_fun c v with
        | Some r => COk r
@@ -465,8 +474,11 @@ Fixpoint copy_tree_node_gen (zs : bool) (o : options) (n : node) (s d : rv) {str
               else match apply_conv c (rty s) (rval s) with
                    | CPanic => (rewrap p (rval d1), SPanic)
                    | CErr e => (rewrap p (rval d1), SErr e)
-                   | COk r =>
-                       if negb (ty_eqb (cv_dst c) (rty d)) then (rewrap p (rval d1), SErr CType)
+                   | COk CNil =>
+                       (* reflect.TypeOf(nil) is the nil Type: `srcConvType != originDstVal.Type()` *)
+                       (rewrap p (rval d1), SErr CType)
+                   | COk (CDyn t r) =>
+                       if negb (ty_eqb t (rty d)) then (rewrap p (rval d1), SErr CType)
                        else (r, SOk)                                 (* originDstVal.Set(srcConvVal) *)
                    end
           end
@@ -642,48 +654,6 @@ Definition pure_copy_to (sty : ty) (src : value) (dty : ty) (dst : value) : valu
   | _ => (dst, SErr CEntry)
   end.
 
-(* ---------------------------------------------------------------- a small converter language
-   (used by the correspondence driver; the theorems quantify over all `conv`) *)
-Inductive cfun :=
-| FConst (v : value)      (* returns v, nil *)
-| FFail                   (* returns the zero value and an error *)
-| FAdd (k : Z)            (* numbers: x + k *)
-| FId                     (* returns its argument *)
-| FLen.                   (* string -> number: len(s) *)
-
-Definition run_cfun (f : cfun) (v : value) : option value :=
-  match f with
-  | FConst c => Some c
-  | FFail => None
-  | FAdd k => match v with VNum z => Some (VNum (z + k)) | _ => Some v end
-  | FId => Some v
-  | FLen => match v with VStr s => Some (VNum (Z.of_nat (length s))) | _ => Some (VNum 0) end
-  end.
-
-Definition mk_conv (s d : ty) (f : cfun) : conv :=
-  {| cv_src := s; cv_dst := d; cv_fun := run_cfun f |}.
-
-(* ---------------------------------------------------------------- one correspondence case *)
-Inductive call :=
-| CallCopy (src : option value) (ps : list opt)
-| CallCopyTo (src dst : option value) (ps : list opt)
-| CallPure (src dst : value).         (* CopyTo(&src, &dst) of pure_reflect_copier.go *)
-
-Definition run_call_gen (zs : bool) (c : copier) (st dt : ty) (k : call) : option value * status :=
-  match k with
-  | CallCopy src ps => reflect_copy_to_gen zs c st dt src (Some (zero_value dt)) ps
-  | CallCopyTo src dst ps => reflect_copy_to_gen zs c st dt src dst ps
-  | CallPure src dst =>
-      match pure_copy_to (Ptr st) (VPtr (Some src)) (Ptr dt) (VPtr (Some dst)) with
-      | (VPtr p, stt) => (p, stt)
-      | (_, stt) => (None, stt)
-      end
-  end.
-
-Definition run_call := run_call_gen true.
-(* the repaired variant (no zero-skip), only for the known-finding tolerance of the check *)
-Definition run_call_nozeroskip := run_call_gen false.
-
 (* ---------------------------------------------------------------- boolean equalities
    (used by the vm_compute cross-check of the extraction and by examples) *)
 Fixpoint list_eqb {A} (eqb : A -> A -> bool) (a b : list A) : bool :=
@@ -742,3 +712,58 @@ Definition optvalue_eqb (a b : option value) : bool :=
   | Some x, Some y => value_eqb x y
   | _, _ => false
   end.
+
+(* ---------------------------------------------------------------- a small converter language
+   (used by the correspondence driver; the theorems quantify over all `conv`) *)
+Inductive cfun :=
+| FConst (v : value)      (* returns v (of the declared Dst type), nil *)
+| FFail                   (* returns the zero value and an error *)
+| FAdd (k : Z)            (* numbers: x + k *)
+| FId                     (* returns its argument *)
+| FLen                    (* string -> number: len(s) *)
+| FNil                    (* interface Dst only: returns the nil interface, nil *)
+| FDyn (t : ty) (v : value)           (* interface Dst only: returns the dynamic value v : t, nil *)
+| FNilIf (z : value) (t : ty) (v : value).  (* interface Dst: nil interface when the argument is z, else v : t *)
+
+Definition is_iface (t : ty) : bool :=
+  match t with Other OIface _ => true | _ => false end.
+
+Definition run_cfun (s d : ty) (f : cfun) (v : value) : option cvres :=
+  let dyn := if is_iface d then s else d in     (* dynamic type of a result computed from the argument *)
+  match f with
+  | FConst c => Some (CDyn d c)
+  | FFail => None
+  | FAdd k => match v with VNum z => Some (CDyn dyn (VNum (z + k))) | _ => Some (CDyn dyn v) end
+  | FId => Some (CDyn dyn v)
+  | FLen =>
+      let t := if is_iface d then Basic KInt else d in
+      match v with VStr b => Some (CDyn t (VNum (Z.of_nat (length b)))) | _ => Some (CDyn t (VNum 0)) end
+  | FNil => Some CNil
+  | FDyn t c => Some (CDyn t c)
+  | FNilIf z t c => if value_eqb v z then Some CNil else Some (CDyn t c)
+  end.
+
+Definition mk_conv (s d : ty) (f : cfun) : conv :=
+  {| cv_src := s; cv_dst := d; cv_fun := run_cfun s d f |}.
+
+(* ---------------------------------------------------------------- one correspondence case *)
+Inductive call :=
+| CallCopy (src : option value) (ps : list opt)
+| CallCopyTo (src dst : option value) (ps : list opt)
+| CallPure (src dst : value).         (* CopyTo(&src, &dst) of pure_reflect_copier.go *)
+
+Definition run_call_gen (zs : bool) (c : copier) (st dt : ty) (k : call) : option value * status :=
+  match k with
+  | CallCopy src ps => reflect_copy_to_gen zs c st dt src (Some (zero_value dt)) ps
+  | CallCopyTo src dst ps => reflect_copy_to_gen zs c st dt src dst ps
+  | CallPure src dst =>
+      match pure_copy_to (Ptr st) (VPtr (Some src)) (Ptr dt) (VPtr (Some dst)) with
+      | (VPtr p, stt) => (p, stt)
+      | (_, stt) => (None, stt)
+      end
+  end.
+
+Definition run_call := run_call_gen true.
+(* the repaired variant (no zero-skip), only for the known-finding tolerance of the check *)
+Definition run_call_nozeroskip := run_call_gen false.
+
